@@ -354,26 +354,26 @@ Qed.
 
 (* ================================================================== histories *)
 Lemma run_app mx st evs1 evs2 :
-  run mx st (evs1 ++ evs2) =
-  let '(st1, o1) := run mx st evs1 in let '(st2, o2) := run mx st1 evs2 in (st2, o1 ++ o2).
+  cp_run mx st (evs1 ++ evs2) =
+  let '(st1, o1) := cp_run mx st evs1 in let '(st2, o2) := cp_run mx st1 evs2 in (st2, o1 ++ o2).
 Proof.
-  revert st. induction evs1 as [|ev evs1 IH]; intros st; cbn [app run].
-  - destruct (run mx st evs2). reflexivity.
+  revert st. induction evs1 as [|ev evs1 IH]; intros st; cbn [app cp_run].
+  - destruct (cp_run mx st evs2). reflexivity.
   - destruct (cp_step mx st ev) as [st1 o]. rewrite IH.
-    destruct (run mx st1 evs1) as [st2 os]. destruct (run mx st2 evs2). reflexivity.
+    destruct (cp_run mx st1 evs1) as [st2 os]. destruct (cp_run mx st2 evs2). reflexivity.
 Qed.
 
 Lemma run_snoc mx st evs ev :
-  fst (run mx st (evs ++ [ev])) = fst (cp_step mx (fst (run mx st evs)) ev).
+  fst (cp_run mx st (evs ++ [ev])) = fst (cp_step mx (fst (cp_run mx st evs)) ev).
 Proof.
-  rewrite run_app. destruct (run mx st evs) as [st1 o1]. cbn [run fst].
+  rewrite run_app. destruct (cp_run mx st evs) as [st1 o1]. cbn [cp_run fst].
   destruct (cp_step mx st1 ev). reflexivity.
 Qed.
 
-Lemma run_length mx st evs : length (snd (run mx st evs)) = length evs.
+Lemma run_length mx st evs : length (snd (cp_run mx st evs)) = length evs.
 Proof.
-  revert st. induction evs as [|ev evs IH]; intros st; cbn [run]; [reflexivity|].
-  destruct (cp_step mx st ev) as [st1 o]. specialize (IH st1). destruct (run mx st1 evs). cbn in *. now rewrite IH.
+  revert st. induction evs as [|ev evs IH]; intros st; cbn [cp_run]; [reflexivity|].
+  destruct (cp_step mx st ev) as [st1 o]. specialize (IH st1). destruct (cp_run mx st1 evs). cbn in *. now rewrite IH.
 Qed.
 
 (* ---- invariant 1 (no assumption): every cp_entry was put there by a Store event of the history *)
@@ -418,7 +418,7 @@ Proof.
 Qed.
 
 Lemma inv_src_run mx evs : forall hist st,
-  inv_src mx hist st -> inv_src mx (hist ++ evs) (fst (run mx st evs)).
+  inv_src mx hist st -> inv_src mx (hist ++ evs) (fst (cp_run mx st evs)).
 Proof.
   induction evs as [|ev evs IH] using rev_ind; intros hist st H.
   - rewrite app_nil_r. exact H.
@@ -428,7 +428,7 @@ Qed.
 Lemma inv_src_init mx clk : inv_src mx [] (init_state clk).
 Proof. intros k e H. discriminate. Qed.
 
-Lemma reachable_src mx clk evs : inv_src mx evs (fst (run mx (init_state clk) evs)).
+Lemma reachable_src mx clk evs : inv_src mx evs (fst (cp_run mx (init_state clk) evs)).
 Proof. apply (inv_src_run mx evs [] (init_state clk)), inv_src_init. Qed.
 
 (* ---- invariant 2 (under the clock assumption): the otter expiration of every cp_entry is tied to its wall-clock expiry *)
@@ -448,12 +448,12 @@ Proof.
 Qed.
 
 Lemma hist_ok_app lag mx st evs1 evs2 :
-  hist_ok lag mx st (evs1 ++ evs2) <-> hist_ok lag mx st evs1 /\ hist_ok lag mx (fst (run mx st evs1)) evs2.
+  hist_ok lag mx st (evs1 ++ evs2) <-> hist_ok lag mx st evs1 /\ hist_ok lag mx (fst (cp_run mx st evs1)) evs2.
 Proof.
-  revert st. induction evs1 as [|ev evs1 IH]; intros st; cbn [app hist_ok run].
+  revert st. induction evs1 as [|ev evs1 IH]; intros st; cbn [app hist_ok cp_run].
   - cbn. tauto.
   - destruct (cp_step mx st ev) as [st1 o] eqn:Es. cbn [fst]. rewrite IH.
-    destruct (run mx st1 evs1) as [st2 os]. cbn [fst]. tauto.
+    destruct (cp_run mx st1 evs1) as [st2 os]. cbn [fst]. tauto.
 Qed.
 
 Definition entry_clk (e : cp_entry) : Prop :=
@@ -506,13 +506,13 @@ Proof.
 Qed.
 
 Lemma inv_clk_run lag mx evs : SECOND <= mx -> forall st,
-  inv_clk st -> hist_ok lag mx st evs -> inv_clk (fst (run mx st evs)).
+  inv_clk st -> hist_ok lag mx st evs -> inv_clk (fst (cp_run mx st evs)).
 Proof.
-  intros Hmx. induction evs as [|ev evs IH]; intros st Hinv Hok; cbn [run].
+  intros Hmx. induction evs as [|ev evs IH]; intros st Hinv Hok; cbn [cp_run].
   - exact Hinv.
   - destruct Hok as [Hev Hrest]. pose proof (inv_clk_step lag mx st ev Hmx Hinv Hev) as H1.
     destruct (cp_step mx st ev) as [st1 o]. cbn [fst] in *.
-    specialize (IH st1 H1 Hrest). destruct (run mx st1 evs). exact IH.
+    specialize (IH st1 H1 Hrest). destruct (cp_run mx st1 evs). exact IH.
 Qed.
 
 Lemma inv_clk_init clk : inv_clk (init_state clk).
@@ -530,7 +530,7 @@ Qed.
 (* TTL ageing: whatever the history, a hit returns a message some Store event of this history supplied for this key
    (not truncated), with every non-OPT TTL = max 1 (ttl - whole seconds since that Store), OPT and all else untouched *)
 Lemma hit_ttl_bound mx clk0 evs t k st' m' s x :
-  cachectl_get (fst (run mx (init_state clk0) evs)) t k = (st', OHit m' s x) ->
+  cachectl_get (fst (cp_run mx (init_state clk0) evs)) t k = (st', OHit m' s x) ->
   exists eps m, In (EvStore s eps k (Some m) true) evs /\ h_tc (m_hdr m) = false /\
     x = s + msg_lifetime mx m /\
     m' = subtract_ttl (elapsed_secs t s) m /\
@@ -548,7 +548,7 @@ Qed.
 Lemma hit_before_expiry lag mx clk0 evs t k st' m' s x :
   SECOND <= mx ->
   hist_ok lag mx (init_state clk0) (evs ++ [EvGet t k]) ->
-  cachectl_get (fst (run mx (init_state clk0) evs)) t k = (st', OHit m' s x) ->
+  cachectl_get (fst (cp_run mx (init_state clk0) evs)) t k = (st', OHit m' s x) ->
   t < x + lag /\
   exists eps m, In (EvStore s eps k (Some m) true) evs /\ x = s + msg_lifetime mx m.
 Proof.
@@ -556,7 +556,7 @@ Proof.
   pose proof (inv_clk_run lag mx evs Hmx (init_state clk0) (inv_clk_init clk0) Hok1) as Hinv.
   pose proof H as H0. apply get_hit in H. destruct H as (e & Hf & Hx & _ & -> & -> & _).
   split.
-  - apply (live_before_expiry lag (st_clk (fst (run mx (init_state clk0) evs))) e t (Hinv k e Hf) Hx). exact Hget.
+  - apply (live_before_expiry lag (st_clk (fst (cp_run mx (init_state clk0) evs))) e t (Hinv k e Hf) Hx). exact Hget.
   - apply hit_ttl_bound in H0. destruct H0 as (eps & m & Hin & _ & Hxx & _). eauto.
 Qed.
 
@@ -577,11 +577,11 @@ Qed.
 (* a negative store onto a present key is invisible to the whole future of the history *)
 Lemma negative_store_noop mx st t eps k m pk e evs :
   negative m = true -> find k (st_map st) = Some e ->
-  exists o, run mx st (EvStore t eps k (Some m) pk :: evs) =
-            (fst (run mx st evs), o :: snd (run mx st evs)) /\ (o = OSkipped \/ o = OKept (msg_lifetime mx m)).
+  exists o, cp_run mx st (EvStore t eps k (Some m) pk :: evs) =
+            (fst (cp_run mx st evs), o :: snd (cp_run mx st evs)) /\ (o = OSkipped \/ o = OKept (msg_lifetime mx m)).
 Proof.
   intros Hn Hf. destruct (store_negative_keeps mx st t eps k m pk e Hn Hf) as (o & Hs & Ho).
-  exists o. split; [|exact Ho]. cbn [run cp_step]. rewrite Hs. destruct (run mx st evs). reflexivity.
+  exists o. split; [|exact Ho]. cbn [cp_run cp_step]. rewrite Hs. destruct (cp_run mx st evs). reflexivity.
 Qed.
 
 (* ================================================================== router level *)
